@@ -82,7 +82,7 @@ var rR16w = RuleRef{Name: "R16w", Doc: "durability points and validation before 
 			if !has {
 				continue
 			}
-			of := c.orderFlow(fn, nil, true, "F|cmp:0==Sum32()", "F|cmp:0==?")
+			of := c.orderFlow(fn, nil, true, "F|cmp:0==*")
 			for _, b := range fn.Blocks {
 				for _, in := range b.Instrs {
 					ci, ok := in.(ssa.CallInstruction)
@@ -93,7 +93,14 @@ var rR16w = RuleRef{Name: "R16w", Doc: "durability points and validation before 
 					states, live := of.States(in)
 					good := live
 					for _, st := range states {
-						if !st["F|cmp:0==Sum32()"] && !st["F|cmp:0==?"] {
+						// the running CRC (d.crc.Sum32(), directly, through an accessor or a local) was found non-zero
+						nonZero := false
+						for f := range st {
+							if strings.HasPrefix(f, "F|cmp:0==") {
+								nonZero = true
+							}
+						}
+						if !nonZero {
 							good = false
 						}
 					}
